@@ -83,10 +83,16 @@ impl TryFrom<apollo_parser::cst::InterfaceTypeDefinition> for InterfaceTypeDef {
             extend: false,
             fields_def: interface_def
                 .fields_definition()
-                .expect("object type definition must have fields definition")
-                .field_definitions()
-                .map(FieldDef::try_from)
-                .collect::<Result<Vec<_>, _>>()?,
+                .map(|fields_def| {
+                    fields_def
+                        .field_definitions()
+                        .map(FieldDef::try_from)
+                        .collect::<Result<Vec<_>, _>>()
+                })
+                .transpose()?
+                // A definition or an extension may come without a fields block
+                // (`extend interface N @d`)
+                .unwrap_or_default(),
             interfaces: interface_def
                 .implements_interfaces()
                 .map(|itfs| {
@@ -119,10 +125,16 @@ impl TryFrom<apollo_parser::cst::InterfaceTypeExtension> for InterfaceTypeDef {
             extend: true,
             fields_def: interface_def
                 .fields_definition()
-                .expect("object type definition must have fields definition")
-                .field_definitions()
-                .map(FieldDef::try_from)
-                .collect::<Result<Vec<_>, _>>()?,
+                .map(|fields_def| {
+                    fields_def
+                        .field_definitions()
+                        .map(FieldDef::try_from)
+                        .collect::<Result<Vec<_>, _>>()
+                })
+                .transpose()?
+                // A definition or an extension may come without a fields block
+                // (`extend interface N @d`)
+                .unwrap_or_default(),
             interfaces: interface_def
                 .implements_interfaces()
                 .map(|itfs| {
